@@ -22,6 +22,8 @@ Fixpoint is_infix (p s : str) : bool :=              (* Python  p in s  *)
 Definition ends_with (p s : str) : bool := starts_with (rev p) (rev s).
 Definition is_nil {A} (l : list A) : bool := match l with [] => true | _ => false end.
 Definition all_ws (s : str) : bool := forallb (fun c => mem_char c py_whitespace) s.   (* not s.strip() *)
+(* not s.strip(' \t\r\n\f'): Out._remove_last_if_S looks for CSS white space only *)
+Definition all_css_ws (s : str) : bool := forallb (fun c => (c =? 32) || (c =? 9) || (c =? 10) || (c =? 12) || (c =? 13))%N s.
 
 (* s.replace(<a><b>, rep) for a two-character pattern *)
 Fixpoint replace2 (a b : N) (rep s : str) : str :=
@@ -383,7 +385,7 @@ Definition specificity (r : selres) : N * N * N * N := (0, r_b r, r_c r, r_d r).
 
 (* ----------------------------------------- do_css_Selector via Out.append *)
 Definition remove_last_if_S (out : list str) : list str :=       (* out is reversed *)
-  match out with x :: r => if all_ws x then r else out | [] => [] end.
+  match out with x :: r => if all_css_ws x then r else out | [] => [] end.
 
 Definition s_out_pre : str := [43; 62; 126; 44; 58; 123; 59; 41; 93; 47; 61; 125].    (* '+>~,:{;)]/=}' *)
 Definition s_combs : str := [43; 62; 126].                                            (* '+>~' *)
